@@ -50,9 +50,20 @@ def _targets(t: ast.AST, path=()):
         yield from _targets(t.value, path + ("*",))
 
 
+MUTATING_METHODS = {"fill", "sort", "resize", "put", "itemset", "append", "extend", "update", "clear", "pop",
+                    "insert", "setfield", "partition"}
+
+
+def _base_name(t: ast.AST) -> str | None:
+    while isinstance(t, (ast.Subscript, ast.Attribute)):
+        t = t.value
+    return t.id if isinstance(t, ast.Name) else None
+
+
 class Flow:
-    def __init__(self, fn: FuncInfo):
+    def __init__(self, fn: FuncInfo, prog=None):
         self.fn = fn
+        self.prog = prog
         self.cfg = CFG(fn.node)
         self.defs: list[Def] = []
         self.defs_at: dict[int, list[Def]] = {}
@@ -88,6 +99,7 @@ class Flow:
                 elif isinstance(st, (ast.Import, ast.ImportFrom)):
                     for al in st.names:
                         self._add(Def((al.asname or al.name).split(".")[0], n, "other", None, stmt=st))
+                self._mutations(st, n)
                 # walrus inside any simple statement
                 for sub in ast.walk(st):
                     if isinstance(sub, ast.NamedExpr) and isinstance(sub.target, ast.Name):
@@ -107,6 +119,31 @@ class Flow:
                 for sub in ast.walk(st.test):
                     if isinstance(sub, ast.NamedExpr) and isinstance(sub.target, ast.Name):
                         self._add(Def(sub.target.id, n, "assign", sub.value, stmt=st))
+
+    def _mutations(self, st: ast.stmt, n: int) -> None:
+        """In-place updates of a local object: partial definitions that do not kill."""
+        targets = []
+        if isinstance(st, ast.Assign):
+            targets = [(t, st.value) for t in st.targets]
+        elif isinstance(st, ast.AugAssign):
+            targets = [(st.target, st.value)]
+        for t, v in targets:
+            for sub in ([t] if not isinstance(t, (ast.Tuple, ast.List)) else t.elts):
+                if isinstance(sub, (ast.Subscript, ast.Attribute)):
+                    b = _base_name(sub)
+                    if b is not None and b not in ("self", "cls"):
+                        self._add(Def(b, n, "mutate", ast.Tuple(elts=[v, sub], ctx=ast.Load()), stmt=st))
+        for call in [c for c in ast.walk(st) if isinstance(c, ast.Call)]:
+            f = call.func
+            if isinstance(f, ast.Attribute) and f.attr in MUTATING_METHODS and isinstance(f.value, ast.Name):
+                self._add(Def(f.value.id, n, "mutate", call, stmt=st))
+            for kw in call.keywords:
+                if kw.arg == "out" and isinstance(kw.value, ast.Name):
+                    self._add(Def(kw.value.id, n, "mutate", call, stmt=st))
+            if self.prog is not None:
+                from .effects import mutated_arg_names
+                for name in mutated_arg_names(self.prog, self.fn, call):
+                    self._add(Def(name, n, "mutate", call, stmt=st))
 
     def _bind(self, target: ast.AST, value: ast.AST, n: int, st: ast.stmt) -> None:
         if isinstance(target, ast.Name):
@@ -145,10 +182,10 @@ class Flow:
             IN[n] = newin
             out = dict(newin)
             for var, ids in gen.get(n, {}).items():
-                aug_only = all(self.defs[i].kind == "aug" for i in ids)
-                # an augmented assignment both uses and redefines: it kills too
-                out[var] = ids
-                _ = aug_only
+                if all(self.defs[i].kind == "mutate" for i in ids):
+                    out[var] = frozenset(out.get(var, frozenset()) | ids)  # partial update: no kill
+                else:
+                    out[var] = ids
             if out != OUT[n]:
                 OUT[n] = out
                 for s in cfg.succ[n]:
@@ -293,11 +330,12 @@ class Flow:
                     yield sub
 
 
-_flow_cache: dict[int, Flow] = {}
+_flow_cache: dict[tuple, Flow] = {}
 
 
-def flow_of(fn: FuncInfo) -> Flow:
-    key = id(fn.node)
+def flow_of(fn: FuncInfo, prog=None) -> Flow:
+    """Flow facts of fn; with `prog`, calls that write into an argument count as mutations."""
+    key = (id(fn.node), id(prog) if prog is not None else 0)
     if key not in _flow_cache:
-        _flow_cache[key] = Flow(fn)
+        _flow_cache[key] = Flow(fn, prog)
     return _flow_cache[key]
